@@ -134,7 +134,7 @@ def check_word(task):
 
 
 # ------------------------------------------------------------------ sensor observers: a common rigid motion changes nothing
-SENS_KINDS = ["static", "wobble", "rotpath", "micro", "left_id", "left_rot"]
+SENS_KINDS = ["static", "wobble", "rotpath", "micro", "left_id", "left_rot", "tiny"]
 
 
 def mk_sensor(skind):
@@ -144,6 +144,10 @@ def mk_sensor(skind):
     if skind == "left_id":     # left-handed and exactly unrotated (translated only): becomes rotated under a common motion
         s.handedness = "left"
         s.move([(0.1, 0.0, 0.05), (0.2, -0.1, 0.1)])
+        return s
+    if skind == "tiny":       # tilted by 0.3 deg only: a rotated sensor, however little
+        s.rotate_from_angax(0.3, (1, -2, 0.5))
+        s.move([(0.1, 0.0, 0.05)])
         return s
     if skind == "left_rot":
         s.handedness = "left"
